@@ -1,12 +1,19 @@
 package mon
 
 import (
+	"reflect"
 	"strings"
 
 	"google.golang.org/protobuf/encoding/prototext"
 	"google.golang.org/protobuf/proto"
 
+	"github.com/jamespfennell/gtfs"
+	"github.com/jamespfennell/gtfs/extensions/nycttrips"
+	gtfsrt "github.com/jamespfennell/gtfs/proto"
+
+	"verifharness/canon"
 	"verifharness/core"
+	"verifharness/rgen"
 )
 
 // diffPath returns the generic path (indices stripped) of the first differing
@@ -48,4 +55,69 @@ func truncBytes(b []byte, n int) []byte {
 
 func prototextMarshal(m proto.Message) string {
 	return prototext.MarshalOptions{Multiline: false}.Format(m)
+}
+
+// skipInterplay: a trip update that an extension asks to skip (a stale unassigned NYCT trip under the stale filter) and a
+// vehicle position that carries the same trip descriptor, in every entity order, next to an unrelated trip. The vehicle
+// position still associates its vehicle with that trip (C04: both references set and mutual), and the result does not depend
+// on the order of the entities (C07). prop is the property on whose behalf the check runs.
+func skipInterplay(c *core.Ctx, prop string) {
+	r := c.R
+	for _, veh := range []string{"id", "label", "none"} {
+		mkDesc := func() *gtfsrt.TripDescriptor {
+			d := &gtfsrt.TripDescriptor{TripId: rgen.S("123450_A..N07"), RouteId: rgen.S("A"), StartDate: rgen.S("20231114")}
+			c16SetNyct(d, "false", "NORTH", "")
+			return d
+		}
+		tu := &gtfsrt.TripUpdate{Trip: mkDesc(), StopTimeUpdate: c16Stops("dep<", "none", r)}
+		vp := &gtfsrt.VehiclePosition{Trip: mkDesc(), StopId: rgen.S("A20N"), Timestamp: rgen.U64(c16FeedTs)}
+		switch veh {
+		case "id":
+			vp.Vehicle = &gtfsrt.VehicleDescriptor{Id: rgen.S("V1")}
+		case "label":
+			vp.Vehicle = &gtfsrt.VehicleDescriptor{Label: rgen.S("car 9")}
+		}
+		other := &gtfsrt.TripUpdate{Trip: &gtfsrt.TripDescriptor{TripId: rgen.S("other"), RouteId: rgen.S("B")}, StopTimeUpdate: []*gtfsrt.TripUpdate_StopTimeUpdate{{StopId: rgen.S("S1")}}}
+		ents := []*gtfsrt.FeedEntity{{Id: rgen.S("tu"), TripUpdate: tu}, {Id: rgen.S("vp"), Vehicle: vp}, {Id: rgen.S("other"), TripUpdate: other}}
+		var first string
+		for _, perm := range [][]int{{0, 1, 2}, {0, 2, 1}, {1, 0, 2}, {1, 2, 0}, {2, 0, 1}, {2, 1, 0}} {
+			m := &gtfsrt.FeedMessage{Header: &gtfsrt.FeedHeader{GtfsRealtimeVersion: rgen.S("1.0"), Timestamp: rgen.U64(c16FeedTs)}}
+			for _, j := range perm {
+				m.Entity = append(m.Entity, ents[j])
+			}
+			rt, err := gtfs.ParseRealtime(rgen.Marshal(m), &gtfs.ParseRealtimeOptions{Extension: nycttrips.Extension(nycttrips.ExtensionOpts{FilterStaleUnassignedTrips: true})})
+			c.Eval(1)
+			c.Feature("skipped-trip-update-next-to-a-vehicle-position-of-the-same-trip")
+			detail := map[string]any{"message": prototextOf(m), "vehicle_descriptor": veh}
+			if err != nil {
+				c.Violationf(prop+"|skip-interplay|parse-error", detail, "ParseRealtime failed: %v", err)
+				return
+			}
+			c.Cmp(2)
+			if prop == "C04" {
+				var v *gtfs.Vehicle
+				for i := range rt.Vehicles {
+					if rt.Vehicles[i].StopID != nil && *rt.Vehicles[i].StopID == "A20N" {
+						v = &rt.Vehicles[i]
+					}
+				}
+				switch {
+				case v == nil:
+					c.Violationf("C04|skip-interplay|vehicle-missing|"+veh, detail, "the vehicle of the vehicle position is not in Vehicles")
+				case v.Trip == nil:
+					c.Violationf("C04|skip-interplay|missing-link|Vehicle.Trip|"+veh, detail, "the vehicle position carries a trip descriptor but Vehicle.Trip is nil (its trip update was skipped by the extension)")
+				case v.Trip.Vehicle == nil || !reflect.DeepEqual(v.Trip.Vehicle.ID, v.ID):
+					c.Violationf("C04|skip-interplay|not-mutual|"+veh, detail, "Vehicle.Trip.Vehicle does not lead back to the vehicle")
+				}
+			}
+			d := canon.DumpRealtime(rt, false)
+			if first == "" {
+				first = d
+			} else if prop == "C07" && d != first {
+				_, desc, _ := diffPath(first, d)
+				c.Violationf("C07|skip-interplay|order-dependent|"+veh, detail, "entity order %v gives a different result than order [0 1 2] when an extension skips a trip update: %s", perm, desc)
+				return
+			}
+		}
+	}
 }
